@@ -44,6 +44,8 @@ type Node struct {
 	Close bool `json:"close,omitempty"`
 	// CErr: the cleanup of an unwind-protect signals an error after its marker
 	CErr bool `json:"cerr,omitempty"`
+	// NilVal: a ret leaf returns nil instead of 7 ((return) / (return-from b nil))
+	NilVal bool `json:"nil_val,omitempty"`
 	// Sym: the tags of this tagbody / loop body are symbols, not integers
 	Sym bool `json:"sym,omitempty"`
 	// Direct: the kids of a lock are the body forms of with-mutex-lock itself
@@ -143,7 +145,8 @@ func (g *genCtx) leaf() Node {
 	case x < 45:
 		return Node{K: "val"}
 	case x < 62 && len(g.blocks) > 0:
-		return Node{K: "ret", Name: g.blocks[g.r.Intn(len(g.blocks))]}
+		g.nextID++
+		return Node{K: "ret", ID: g.nextID, Name: g.blocks[g.r.Intn(len(g.blocks))], NilVal: g.r.Pct(25)}
 	case x < 70 && len(g.tags) > 0:
 		return Node{K: "go", Name: g.tags[g.r.Intn(len(g.tags))]}
 	case x < 74 && len(g.btags) > 0 && g.backs < 2:
@@ -154,7 +157,12 @@ func (g *genCtx) leaf() Node {
 		return Node{K: "goback", ID: g.nextID, Name: g.btags[g.r.Intn(len(g.btags))]}
 	case x < 88:
 		return Node{K: "err", Name: errLeaves[g.r.Intn(len(errLeaves))]}
-	case x < 94 && g.inSend == 0:
+	case x < 91 && g.inSend == 0:
+		// a function called through a call site that was compiled before the
+		// function was defined
+		g.nextID++
+		return Node{K: "fwd", ID: g.nextID}
+	case x < 95 && g.inSend == 0:
 		// (not inside a lambda body: a defun evaluated inside a function body
 		// loses its parameters on the unchanged tree - not a C07 matter)
 		g.nextID++
@@ -392,10 +400,17 @@ func (n *Node) render(dir string, b *strings.Builder) {
 	case "val":
 		b.WriteString("(sim-emit \"leaf\" \"val\")")
 	case "ret":
+		val, form := "7", " 7"
+		if n.NilVal {
+			val, form = "nil", []string{"", " nil", " '()"}[n.ID%3]
+		}
 		if n.Name == "nil" {
-			b.WriteString("(progn (sim-emit \"leaf\" \"ret\" \"nil\") (return 7))")
+			fmt.Fprintf(b, "(progn (sim-emit \"leaf\" \"ret\" \"nil\" \"%s\") (return%s))", val, form)
 		} else {
-			fmt.Fprintf(b, "(progn (sim-emit \"leaf\" \"ret\" \"%s\") (return-from %s 7))", n.Name, n.Name)
+			if form == "" {
+				form = " nil"
+			}
+			fmt.Fprintf(b, "(progn (sim-emit \"leaf\" \"ret\" \"%s\" \"%s\") (return-from %s%s))", n.Name, val, n.Name, form)
 		}
 	case "go":
 		fmt.Fprintf(b, "(progn (sim-emit \"leaf\" \"go\" \"%s\") (go %s))", n.Name, n.Name)
@@ -404,6 +419,12 @@ func (n *Node) render(dir string, b *strings.Builder) {
 		fmt.Fprintf(b, "(when (sim-once %d) (sim-emit \"leaf\" \"go\" \"%s\") (go %s))", n.ID, n.Name, n.Name)
 	case "err":
 		fmt.Fprintf(b, "(progn (sim-emit \"signal\" \"%s\") %s)", n.Name, errForm(n.Name))
+	case "fwd":
+		// The caller is defined - and its call of the callee compiled - before
+		// the callee exists; the callee leaves through (return-from callee ..)
+		// from inside a loop and an unwind-protect.
+		u := fmt.Sprintf("%d%s", n.ID, filepath.Base(dir))
+		fmt.Fprintf(b, "(progn (defun fcaller%s () (list 'got (fcallee%s))) (defun fcallee%s () (dolist (x '(1 2 3)) (unwind-protect (when (= x 2) (return-from fcallee%s 5)) (sim-emit \"fwd-cleanup\" x))) 'fell-through) (sim-emit \"fwd\" (fcaller%s)) (sim-emit \"fwd\" (fcaller%s)))", u, u, u, u, u, u)
 	case "recur":
 		// A function whose cleanup re-enters the function while its own
 		// return-from is still on its way to the block: the exit must yield
@@ -735,6 +756,7 @@ func (c *Case) judge(out runOut, f *Fault) *harness.Violation {
 	// I1 + I2: stack discipline of enter/cleanup markers of task 0
 	var stack []string
 	pendingRet := ""  // a return-from to this block is on its way
+	pendingVal := "7" // the value it carries
 	pendingGo := ""   // a go to this tag is on its way
 	lastCleanup := "" // region whose first cleanup form was the last marker
 	inCS := map[string]bool{}
@@ -770,9 +792,9 @@ func (c *Case) judge(out runOut, f *Fault) *harness.Violation {
 			case "bend":
 				if fs[1] == pendingRet {
 					pendingRet = ""
-					// every return-from / return leaf yields 7
-					if len(fs) > 2 && fs[2] != "7" {
-						return viol("exit-value", "%s: (return-from %s 7) made its block yield %s; trace: %s", what, fs[1], strings.Join(fs[2:], " "), trace(out.marks))
+					// the block yields the value the leaf gave
+					if len(fs) > 2 && fs[2] != pendingVal {
+						return viol("exit-value", "%s: (return-from %s %s) made its block yield %s; trace: %s", what, fs[1], pendingVal, strings.Join(fs[2:], " "), trace(out.marks))
 					}
 				}
 			case "signal", "interrupt":
@@ -799,8 +821,11 @@ func (c *Case) judge(out runOut, f *Fault) *harness.Violation {
 		}
 		switch fs[0] {
 		case "leaf":
-			if len(fs) == 3 && fs[1] == "ret" {
-				pendingRet = fs[2]
+			if len(fs) >= 3 && fs[1] == "ret" {
+				pendingRet, pendingVal = fs[2], "7"
+				if len(fs) > 3 {
+					pendingVal = fs[3]
+				}
 			}
 			if len(fs) == 3 && fs[1] == "go" {
 				pendingGo = fs[2]
@@ -838,6 +863,10 @@ func (c *Case) judge(out runOut, f *Fault) *harness.Violation {
 		case "walk":
 			if len(fs) == 3 && fs[2] != fmt.Sprint(atoi(fs[1])-1) {
 				return viol("exit-value", "%s: (return-from wb %s) in a re-entered function yielded %s to its block; trace: %s", what, fmt.Sprint(atoi(fs[1])-1), fs[2], trace(out.marks))
+			}
+		case "fwd":
+			if got := strings.Join(fs[1:], " "); got != "(got 5)" {
+				return viol("exit-value", "%s: a function called through a call site compiled before its definition left with (return-from f 5) but its caller got %s instead of (got 5); trace: %s", what, got, trace(out.marks))
 			}
 		case "walktop":
 			if len(fs) == 2 && fs[1] != "2" {
@@ -1113,8 +1142,13 @@ func (e *engine) Shrink(raw json.RawMessage) (out []json.RawMessage) {
 				}
 			}
 		}
-		if n.K == "err" || n.K == "ret" || n.K == "go" || n.K == "goback" || n.K == "recur" {
+		if n.K == "err" || n.K == "ret" || n.K == "go" || n.K == "goback" || n.K == "recur" || n.K == "fwd" {
 			emit(replace(path, Node{K: "val"}))
+		}
+		if n.NilVal {
+			nn := cloneNode(*n)
+			nn.NilVal = false
+			emit(replace(path, nn))
 		}
 		if n.Direct || n.Sym {
 			nn := cloneNode(*n)
